@@ -3,14 +3,37 @@ package main
 import (
 	"sort"
 
+	"github.com/cedar-policy/cedar-go/types"
 	"github.com/cedar-policy/cedar-go/x/exp/schema"
 	"github.com/cedar-policy/cedar-go/x/exp/schema/validate"
+	exptypes "github.com/cedar-policy/cedar-go/x/exp/types"
 )
 
 // conform: <schema text> <info> <enumvals> <store> <req> -> (conform (entities (uid 0|1)...) (all 0|1) (request 0|1))
 // The verdicts of Validator.Entity for every entity of the store, Validator.Entities for the store and Validator.Request, against the
 // Coq model Impl/Conform.v (which reads the schema from <info> and <enumvals>).
-func init() { kinds["conform"] = runConform }
+func init() {
+	kinds["conform"] = runConform
+	kinds["ejsonschema"] = runEJSONSchema
+}
+
+// ejsonschema: <schema text> <info> <enumvals> <json tree> -> (ok <store>) | (err): EntityMap.UnmarshalJSONWithSchema, the public path that
+// decodes, coerces along the schema and validates; against the composition of the three Coq models
+func runEJSONSchema(payload []*Sx) *Sx {
+	var s schema.Schema
+	if err := s.UnmarshalCedar([]byte(payload[0].Str())); err != nil {
+		return L(A("schema-error"), AS(err.Error()))
+	}
+	rs, err := s.Resolve()
+	if err != nil {
+		return L(A("schema-resolve-error"), AS(err.Error()))
+	}
+	var em exptypes.EntityMap
+	if err := em.UnmarshalJSONWithSchema([]byte(jsonTextOfSx(payload[3])), rs); err != nil {
+		return L(A("err"))
+	}
+	return L(A("ok"), storeToSx(types.EntityMap(em)))
+}
 
 func runConform(payload []*Sx) *Sx {
 	var s schema.Schema
